@@ -58,6 +58,8 @@ func trackerSnippet(st trackerStep, self string) snippet.Snippet {
 			return snippet.ID(st.Path + ".G[encoding/json.\u00c9l\u00e9ment," + self + ".\u0141]")
 		}
 		return snippet.ID(st.Path + ".G[encoding/json.RawMessage," + self + ".L]")
+	case "generictime":
+		return snippet.ID(st.Path + ".G[string,time.Duration]")
 	}
 	panic("unknown tracker step kind " + st.Kind)
 }
